@@ -1,6 +1,7 @@
-"""C10 - one conversation at a time per device, and login comes first (DESIGN §5 C10)"""
-import json, vlib, pmcheck
+"""C10 - one conversation at a time per device, and login comes first (DESIGN §5 C10), device layer: see props/C07.py"""
+import json, C07
 def run(ctx, V):
-    pmcheck.standard_run(ctx, V, ["alive", "c10", "wedge"], styles=("mixed", "faults"), n_quick=600)
+    C07.run_devlayer(ctx, V, ("login", "fifo", "count", "fd"), 260, 6000, ["alive", "c10", "wedge"], ("mixed", "faults"), 300,
+                     "C10: per device the queue of client ids only loses a prefix (completed in that order) and gains a suffix; connected-and-not-logged-in <=> login is the head.")
 def replay(ctx, V, path):
     print(json.dumps(json.load(open(path)), indent=1)[:6000]); return 0
